@@ -100,7 +100,58 @@ def content_laws(line, out):
         for q in set(pre["data"]) | set(post["data"]):
             if q != p and pre["data"].get(q) != post["data"].get(q):
                 return False
+    if name in ("write_lines", "append_lines", "append_line"):
+        # line helpers add exactly one newline per line; a write replaces the whole content, an append keeps the prefix
+        p = args[0]
+        if not p.startswith("/") or "//" in p or "/./" in p or "/../" in p or p.endswith("/.") or p.endswith("/..") or (p.endswith("/") and p != "/"):
+            return True
+        if name == "append_line":
+            ls = [bytes.fromhex(raw[1])]
+        else:
+            ls = [bytes.fromhex(x) for x in raw[1].split(",")] if raw[1] != "" else []
+        text = b"".join(l + b"\n" for l in ls)
+        want = text if name == "write_lines" else pre["data"].get(p, b"") + text
+        if post["data"].get(p) != want:
+            return False
+        for q in set(pre["data"]) | set(post["data"]):
+            if q != p and pre["data"].get(q) != post["data"].get(q):
+                return False
     return True
+
+
+def lines_nothing_class(line):
+    """KF-C06-nothing-to-write: a line helper called with no text to write (empty list, a lone empty line, append_line(""))"""
+    name, args, raw = last_op(line)
+    if name == "append_line":
+        return raw[1] == ""
+    if name in ("write_lines", "append_lines"):
+        ls = [bytes.fromhex(x) for x in raw[1].split(",")] if raw[1] != "" else []
+        return b"\n".join(ls) == b""
+    return False
+
+
+def link_consistent(path, e):
+    """a link's resolved target (readlink_abs) is its stored target (readlink) taken from the link's own directory"""
+    import posixpath
+    rel = e["rel"]
+    if rel.startswith("/"):
+        want = posixpath.normpath(rel)
+    else:
+        want = posixpath.normpath(posixpath.dirname(path).rstrip("/") + "/" + rel)
+    if want.startswith("//"):
+        want = want[1:]
+    return e["alt"] == want
+
+
+def links_consistent(line, out):
+    """every link of the final state: readlink_abs = clean(dir(link) / readlink)   (C10, after any history)"""
+    res, pre, post = split_out(out)
+    if post is None:
+        return True
+    name, args, raw = last_op(line)
+    if name == "copy_b" and len(raw) > 2 and "follow=1" in raw[2]:
+        return True      # a copy that follows a link to a link clones the inner link entry as it is; compared through the mirror only
+    return all(link_consistent(p, e) for p, e in post["ents"].items() if e["link"])
 
 
 def copy_laws(line, out):
@@ -201,6 +252,9 @@ def move_laws(line, out):
             # a moved link is the same link: the target it stores (relative to itself, what readlink returns and an
             # observer of the real filesystem sees) is unchanged; what that resolves to from the new place may differ
             if pre["ents"][p]["rel"] != post["ents"][q]["rel"]:
+                return False
+            # ... and what it resolves to is that stored target taken from the link's new directory
+            if post["ents"][q]["link"] and not link_consistent(q, post["ents"][q]):
                 return False
     for p in set(pe) | set(post["ents"]):
         if under(p, src) or under(p, dt):
